@@ -39,6 +39,13 @@ Theorem C09_phase_monitor_sound : forall c : pcase, m09p (set_obs c (model_run c
 Proof. exact m09p_sound. Qed.
 Print Assumptions C09_phase_monitor_sound.
 
+(** m09r: with quiet third parties the implementation's paused pass must end like the model's - the same keys among the
+    actual objects (what becomes status.controllerOf), the same failed keys, no error instead; the clause accepts every
+    pass of the model. *)
+Theorem C09_paused_report_monitor_sound : forall c : pcase, m09r (set_obs c (model_run c)) = true.
+Proof. exact m09r_sound. Qed.
+Print Assumptions C09_paused_report_monitor_sound.
+
 (** Delegated phases. REFUTED as stated (open finding F-C09, known_findings.json): the paused state reaches a
     delegated phase only when the phase loop reaches it. Behind a phase whose probes fail the phase object stays
     unpaused and the ObjectSetPhase controller writes an object listed in the paused ObjectSet. *)
